@@ -277,6 +277,9 @@ impl DeclareCommand {
         // Figure out where we should look.
         let lookup = if create_var_local {
             EnvironmentLookup::OnlyInCurrentLocal
+        } else if self.create_global && context.shell.in_function() {
+            // `declare -g` names the global variable even when a local of that name shadows it.
+            EnvironmentLookup::OnlyInGlobal
         } else {
             EnvironmentLookup::Anywhere
         };
